@@ -21,6 +21,7 @@ FN_N_U64 = 'Digit_NumberToString__0_QV_GStream__char_unsigned_long_long'
 FN_N_I64 = 'Digit_NumberToString__0_QV_GStream__char_long_long'
 FN_N_DBL = 'Digit_NumberToString__0_QV_GStream__char_double'
 FN_STR_FIRST, FN_STR_LEN = 'String__char_First', 'String__char_Length'
+FN_ISUND = 'Value__char_IsUndefined'
 HT = 'HashTable__String__char_HAItem_T__String__char_Value__char_'
 FN_HT_FIRST, FN_HT_SIZE = HT + 'First', HT + 'Size'
 FN_ARR_FIRST, FN_ARR_END = 'Array__Value__char_First', 'Array__Value__char_End'
@@ -45,6 +46,17 @@ SCALARS_EMIT = [STR, VT['UIntLong'], VT['IntLong'], VT['Double'], VT['True'], VT
 MUST = [OBJ, ARR] + SCALARS_EMIT
 
 
+NOTBAD = '(g_last != 44 && g_last != 91 && g_last != 123 && g_last != 58)'     # not , [ { :
+VALID_KINDS = sorted(VT.values())
+TARGET_KINDS = [k for k in sorted(VT.values()) if k != VT['ValuePtr']]
+
+
+def wellformed(k, pk):
+    """data-structure invariant of a Value slot: a known kind; a pointer value refers to a value that is not itself a pointer (the one level the
+    library's own accessors follow)"""
+    return ['%s' % kind_in(k, VALID_KINDS), '%s == %d ==> %s' % (k, VT['ValuePtr'], kind_in(pk, TARGET_KINDS))]
+
+
 def closer(kexpr):
     """what g_last must be after writing a value of kind kexpr (where the kind fixes it)"""
     return ['%s == %d ==> g_last == 125' % (kexpr, OBJ), '%s == %d ==> g_last == 93' % (kexpr, ARR), '%s == %d ==> g_last == 34' % (kexpr, STR),
@@ -55,12 +67,14 @@ def sv_spec(enforce):
     """stringifyValue: by the kind of the value, or of the value it points to"""
     k, pk = 'val->type_', 'val->value_->type_'
     ens = ['g_emit || !__CPROVER_old(g_emit)',     # monotone
-           '%s ==> g_emit' % kind_in(k, MUST)] + closer(k)
+           '%s ==> g_emit' % kind_in(k, MUST), '%s ==> %s' % (kind_in(k, MUST), NOTBAD)] + closer(k)
     if enforce:
         # a pointer value refers to a live value (data-structure invariant of Value).  is_fresh cannot sit under an implication, so the
         # target object always exists; for the other kinds the bytes of value_ belong to members this function never reads itself
         req = ['__CPROVER_is_fresh(val, sizeof(*val))', '__CPROVER_is_fresh(stream, sizeof(*stream))', '__CPROVER_is_fresh(val->value_, sizeof(*val->value_))', '!g_emit']
+        req = req + wellformed(k, pk)
         ens = ens + ['(%s == %d && %s) ==> g_emit' % (k, PTR, kind_in(pk, MUST))] + ['(%s == %d && %s' % (k, PTR, c.replace(' ==> ', ') ==> ', 1)) for c in closer(pk)]
+        ens = ens + ['(%s || (%s == %d && %s)) ==> %s' % (kind_in(k, MUST), k, PTR, kind_in(pk, MUST), NOTBAD)]
     else:
         req = ['__CPROVER_r_ok(val, sizeof(*val))']
     hs = []
@@ -82,14 +96,15 @@ def sa_spec(enforce):
                'arr->index_ <= (1u << 24)', '__CPROVER_is_fresh(arr->storage_, ((__CPROVER_size_t)arr->index_) * sizeof(%s))' % VAL,
                # the arbitrary element g_k (if there is one) is the watched value
                '!g_seen', 'g_k < arr->index_ ==> g_watch == arr->storage_ + g_k']
-        ens = ens + ['(g_k < arr->index_ && arr->storage_[g_k].type_ != %d) ==> g_seen' % UNDEF]
+        ens = ens + ['(g_k < arr->index_ && arr->storage_[g_k].type_ != %d && arr->storage_[g_k].type_ != %d) ==> g_seen' % (UNDEF, PTR)]
         loops = {0: dict(invariant=['__CPROVER_same_object(item, end)', '__CPROVER_POINTER_OFFSET(item) <= __CPROVER_POINTER_OFFSET(end)',
                                     '((unsigned int)__CPROVER_POINTER_OFFSET(item)) %% (unsigned int)sizeof(%s) == 0' % VAL, 'g_emit', 'g_last == 91 || g_last == 44',
-                                    '(g_k < arr->index_ && __CPROVER_POINTER_OFFSET(item) > ((__CPROVER_size_t)g_k) * sizeof(%s) && arr->storage_[g_k].type_ != %d) ==> g_seen' % (VAL, UNDEF)],
+                                    '(g_k < arr->index_ && __CPROVER_POINTER_OFFSET(item) > ((__CPROVER_size_t)g_k) * sizeof(%s) && arr->storage_[g_k].type_ != %d && arr->storage_[g_k].type_ != %d) ==> g_seen' % (VAL, UNDEF, PTR)],
                          decreases='__CPROVER_POINTER_OFFSET(end) - __CPROVER_POINTER_OFFSET(item)', assigns='item, g_emit, g_last, g_seen')}
         # bounded search / native replay only: a well-formed array of up to K keyword / Undefined values (kinds drawn as inputs)
         hs = ['o_arr.capacity_ = o_arr.index_; o_arr.storage_ = (struct Value__char *)malloc((o_arr.index_ ? o_arr.index_ : 1) * sizeof(struct Value__char)); __builtin_memset(o_arr.storage_, 0, (o_arr.index_ ? o_arr.index_ : 1) * sizeof(struct Value__char));',
-              'for (unsigned int qi = 0; qi < o_arr.index_; qi++) { __CPROVER_assume(qx_kinds[qi] == 0 || (qx_kinds[qi] >= 8 && qx_kinds[qi] <= 10)); o_arr.storage_[qi].type_ = qx_kinds[qi]; }',
+              'static struct Value__char qx_tu, qx_tt; qx_tu.type_ = 0; qx_tt.type_ = 8;',
+              'for (unsigned int qi = 0; qi < o_arr.index_; qi++) { unsigned char kk = qx_kinds[qi] & 15; __CPROVER_assume(kk == 0 || kk == 1 || (kk >= 8 && kk <= 10)); o_arr.storage_[qi].type_ = kk; if (kk == 1) o_arr.storage_[qi].value_ = (qx_kinds[qi] & 16) ? &qx_tt : &qx_tu; }',
               'if (g_k < o_arr.index_) g_watch = o_arr.storage_ + g_k;']
         return dict(requires=req, ensures=ens, assigns=ASG, loops=loops, harness_setup=hs, obj_buffers=[('qx_kinds', 'o_arr.index_', 'unsigned char')], native_both=True,
                     cex_stub='  g_emit = 1; g_last = 93;')
@@ -105,19 +120,20 @@ def so_spec(enforce):
                '__CPROVER_is_fresh(obj->qx_base.hashTable_, ((__CPROVER_size_t)obj->qx_base.capacity_) * (sizeof(unsigned int) + sizeof(%s)))' % ITEM,
                # the arbitrary member g_k (if there is one) holds the watched value
                '!g_seen', 'g_k < obj->qx_base.index_ ==> g_watch == &((%s *)(obj->qx_base.hashTable_ + obj->qx_base.capacity_))[g_k].Value' % ITEM]
-        ens = ens + ['(g_k < obj->qx_base.index_ && ((%s *)(obj->qx_base.hashTable_ + obj->qx_base.capacity_))[g_k].Value.type_ != %d) ==> g_seen' % (ITEM, UNDEF)]
+        ens = ens + ['(g_k < obj->qx_base.index_ && ((%s *)(obj->qx_base.hashTable_ + obj->qx_base.capacity_))[g_k].Value.type_ != %d && ((%s *)(obj->qx_base.hashTable_ + obj->qx_base.capacity_))[g_k].Value.type_ != %d) ==> g_seen' % (ITEM, UNDEF, ITEM, PTR)]
         loops = {0: dict(invariant=['__CPROVER_same_object(h_item, end)', '__CPROVER_POINTER_OFFSET(h_item) <= __CPROVER_POINTER_OFFSET(end)',
                                     '__CPROVER_POINTER_OFFSET(h_item) >= 4 * (__CPROVER_size_t)obj->qx_base.capacity_',
                                     '((unsigned int)(__CPROVER_POINTER_OFFSET(h_item) - 4 * (__CPROVER_size_t)obj->qx_base.capacity_)) %% (unsigned int)sizeof(%s) == 0' % ITEM, 'g_emit', 'g_last == 123 || g_last == 44',
-                                    '(g_k < obj->qx_base.index_ && __CPROVER_POINTER_OFFSET(h_item) > 4 * (__CPROVER_size_t)obj->qx_base.capacity_ + ((__CPROVER_size_t)g_k) * sizeof(%s) && ((%s *)(obj->qx_base.hashTable_ + obj->qx_base.capacity_))[g_k].Value.type_ != %d) ==> g_seen' % (ITEM, ITEM, UNDEF)],
+                                    '(g_k < obj->qx_base.index_ && __CPROVER_POINTER_OFFSET(h_item) > 4 * (__CPROVER_size_t)obj->qx_base.capacity_ + ((__CPROVER_size_t)g_k) * sizeof(%s) && ((%s *)(obj->qx_base.hashTable_ + obj->qx_base.capacity_))[g_k].Value.type_ != %d && ((%s *)(obj->qx_base.hashTable_ + obj->qx_base.capacity_))[g_k].Value.type_ != %d) ==> g_seen' % (ITEM, ITEM, UNDEF, ITEM, PTR)],
                          decreases='__CPROVER_POINTER_OFFSET(end) - __CPROVER_POINTER_OFFSET(h_item)', assigns='h_item, g_emit, g_last, g_seen')}
         # bounded search / native replay only: a well-formed table (one block: bucket heads, then the slots) of up to K members with
         # keyword / Undefined values; keys are empty or the one-unit string "k" (key lengths drawn as inputs)
-        hs = ['o_obj.qx_base.capacity_ = o_obj.qx_base.index_;',
-              'o_obj.qx_base.hashTable_ = (unsigned int *)malloc((o_obj.qx_base.capacity_ ? o_obj.qx_base.capacity_ : 1) * (sizeof(unsigned int) + sizeof(%s))); __builtin_memset(o_obj.qx_base.hashTable_, 0, (o_obj.qx_base.capacity_ ? o_obj.qx_base.capacity_ : 1) * (sizeof(unsigned int) + sizeof(%s)));' % (ITEM, ITEM),
+        hs = ['o_obj.qx_base.capacity_ = 4;   /* constant-size block: four bucket heads, four slots */',
+              'o_obj.qx_base.hashTable_ = (unsigned int *)malloc(4 * (sizeof(unsigned int) + sizeof(%s))); __builtin_memset(o_obj.qx_base.hashTable_, 0, 4 * (sizeof(unsigned int) + sizeof(%s)));' % (ITEM, ITEM),
               '{ %s *qs = (%s *)(o_obj.qx_base.hashTable_ + o_obj.qx_base.capacity_); static char qx_key[1] = {107};' % (ITEM, ITEM),
-              '  for (unsigned int qi = 0; qi < o_obj.qx_base.index_; qi++) { __CPROVER_assume(qx_kinds[qi] == 0 || (qx_kinds[qi] >= 8 && qx_kinds[qi] <= 10)); __CPROVER_assume(qx_klen[qi] <= 1);',
-              '    qs[qi].Value.type_ = qx_kinds[qi]; qs[qi].Key.length_ = qx_klen[qi]; qs[qi].Key.storage_ = qx_klen[qi] ? qx_key : (char *)0; qs[qi].Hash = 1 + qi; }',
+              '  static struct Value__char qx_tu, qx_tt; qx_tu.type_ = 0; qx_tt.type_ = 8;',
+              '  for (unsigned int qi = 0; qi < o_obj.qx_base.index_; qi++) { unsigned char kk = qx_kinds[qi] & 15; __CPROVER_assume(kk == 0 || kk == 1 || (kk >= 8 && kk <= 10)); __CPROVER_assume(qx_klen[qi] <= 1);',
+              '    qs[qi].Value.type_ = kk; if (kk == 1) qs[qi].Value.value_ = (qx_kinds[qi] & 16) ? &qx_tt : &qx_tu; qs[qi].Key.length_ = qx_klen[qi]; qs[qi].Key.storage_ = qx_klen[qi] ? qx_key : (char *)0; qs[qi].Hash = 1 + qi; }',
               '  if (g_k < o_obj.qx_base.index_) g_watch = &qs[g_k].Value; }']
         return dict(requires=req, ensures=ens, assigns=ASG, loops=loops, harness_setup=hs, native_both=True, cex_stub='  g_emit = 1; g_last = 125;',
                     obj_buffers=[('qx_kinds', 'o_obj.qx_base.index_', 'unsigned char'), ('qx_klen', 'o_obj.qx_base.index_', 'unsigned char')])
@@ -144,7 +160,10 @@ def pub_callee():
 
 def stream_specs():
     return {
-        FN_ADD: dict(assigns=['g_emit', 'g_last'], ensures=['g_emit', 'g_last == ch'], stub_body='  g_emit = 1; g_last = ch;'),
+        # (bounded jobs and native replays run the stub: a comma is only ever written after the text of a value - never first, never after
+        #  an opener, a colon or another comma; the modular proofs cannot carry this through pointer members of symbolic storage)
+        FN_ADD: dict(assigns=['g_emit', 'g_last'], ensures=['g_emit', 'g_last == ch'],
+                     stub_body='  __CPROVER_assert(ch != 44 || (g_emit && %s), "a comma is written only after the text of a value"); g_emit = 1; g_last = ch;' % NOTBAD),
         FN_WRITE: dict(requires=['length == 0 || __CPROVER_r_ok(str, length)'], assigns=['g_emit', 'g_last'],
                        ensures=['length != 0 ==> (g_emit && g_last == str[length - 1])', 'length == 0 ==> (g_emit == __CPROVER_old(g_emit) && g_last == __CPROVER_old(g_last))'],
                        stub_body='  if (length != 0) { g_emit = 1; g_last = str[length - 1]; }'),
@@ -154,13 +173,17 @@ def stream_specs():
         # Escape writes string content (possibly nothing for an empty string); enforced as a transduction under C08
         FN_ESC: dict(assigns=['g_emit', 'g_last'], ensures=['g_emit || !__CPROVER_old(g_emit)'], stub_body='  if (length != 0) { g_emit = 1; g_last = content[length - 1]; }'),
         # number writers put at least one unit (assumed; Digit::NumberToString is under contract in C10 for zero / non-finite / 8- and 16-bit integers only)
-        FN_N_U64: dict(assigns=['g_emit', 'g_last'], ensures=['g_emit'], stub_body='  g_emit = 1; g_last = 48;'),
-        FN_N_I64: dict(assigns=['g_emit', 'g_last'], ensures=['g_emit'], stub_body='  g_emit = 1; g_last = 48;'),
-        FN_N_DBL: dict(assigns=['g_emit', 'g_last'], ensures=['g_emit'], stub_body='  g_emit = 1; g_last = 48;'),
+        # Value::IsUndefined(): exact for every kind but a pointer value, whose target lives in storage the modular proof knows nothing about
+        FN_ISUND: dict(requires=['__CPROVER_r_ok(self, sizeof(*self))'], assigns=[],
+                       ensures=['self->type_ == %d ==> __CPROVER_return_value' % UNDEF, '(self->type_ != %d && self->type_ != %d) ==> !__CPROVER_return_value' % (UNDEF, PTR)],
+                       stub_body='  return self->type_ == %d || (self->type_ == %d && self->value_->type_ == %d);' % (UNDEF, PTR, UNDEF)),
+        FN_N_U64: dict(assigns=['g_emit', 'g_last'], ensures=['g_emit', NOTBAD], stub_body='  g_emit = 1; g_last = 48;'),
+        FN_N_I64: dict(assigns=['g_emit', 'g_last'], ensures=['g_emit', NOTBAD], stub_body='  g_emit = 1; g_last = 48;'),
+        FN_N_DBL: dict(assigns=['g_emit', 'g_last'], ensures=['g_emit', NOTBAD], stub_body='  g_emit = 1; g_last = 48;'),
     }
 
 
-LEAVES = [FN_ADD, FN_WRITE, FN_LAST, FN_ESC, FN_N_U64, FN_N_I64, FN_N_DBL]
+LEAVES = [FN_ADD, FN_WRITE, FN_LAST, FN_ESC, FN_N_U64, FN_N_I64, FN_N_DBL, FN_ISUND]
 
 
 FN_SV_REC, FN_PUB_REC = FN_SV + '_rec', FN_PUB + '_rec'
@@ -178,6 +201,24 @@ def specs_for(fn):
     return sp
 
 
+def comma_jobs():
+    """bounded stand-in: the real stringifyArray / stringifyObject (with the real stringifyValue below them) on every well-formed container of up to 3
+    members whose values are keywords, Undefined, or pointers to a keyword / to an Undefined value; the stream stub asserts that a comma is only
+    written after the text of a value - so no ",," / "[," / ":," and, with the closer clause, no text such as [1,,2] or {"a":}"""
+    out = []
+    for nm, fn, root in (('stringifyArray', FN_SA, Q + 'stringifyArray<QV::GStream<char>>'), ('stringifyObject', FN_SO, Q + 'stringifyObject<QV::GStream<char>>')):
+        sp = specs_for(fn)
+        slot = 'arr->storage_[g_k]' if fn == FN_SA else '((%s *)(obj->qx_base.hashTable_ + obj->qx_base.capacity_))[g_k].Value' % ITEM
+        cnt = 'arr->index_' if fn == FN_SA else 'obj->qx_base.index_'
+        sp[fn] = dict(sp[fn], ensures=sp[fn]['ensures'] + ['(g_k < %s && %s.type_ == %d && %s.value_->type_ != %d) ==> g_seen' % (cnt, slot, PTR, slot, UNDEF)])
+        out.append(dict(name='Value<char>.%s.comma-discipline' % nm, unit=UNIT, fn=fn, roots=[root], cut_qual=CUT_QUAL, uncut_qual=UNCUT, specs=sp, ghosts=GHOSTS, mode='harness', prune_specs=True, cex_recursive=[FN_SV, FN_SA, FN_SO, FN_PUB],
+                        pre='static unsigned char *qx_kinds; static unsigned char *qx_klen;\n', harness_K=(3 if fn == FN_SA else 2), harness_unwind=6, cex_K=(3 if fn == FN_SA else 2), cex_unwind=6,
+                        solver='cadical', timeout=600, objbits=10, must_have=['assertion'], cbmc_flags=['--slice-formula'],
+                        bounded='every well-formed container of up to %d members;' % (3 if fn == FN_SA else 2) + ' member values: true / false / null / Undefined / a pointer to true / a pointer to an Undefined value; keys empty or one unit',
+                        clause='the text of a small container has no comma that does not follow a value text (an Undefined member, also behind a pointer, leaves no empty slot) and ends on its closer'))
+    return out
+
+
 def jobs():
     out = []
     for nm, fn, root, others, rename, clause in (
@@ -190,9 +231,9 @@ def jobs():
             ('Stringify', FN_PUB, Q + 'Stringify<QV::GStream<char>>', [FN_PUB_REC, FN_SV, FN_SA, FN_SO], {FN_PUB: {FN_PUB: FN_PUB_REC}},
              'the public entry writes objects and arrays, also behind a pointer value')):
         sp = specs_for(fn)
-        out.append(dict(name='Value<char>.%s' % nm, unit=UNIT, fn=fn, roots=[root], cut_qual=CUT_QUAL, specs=sp, replace=LEAVES + others, ghosts=GHOSTS, prune_specs=True,
+        out.append(dict(name='Value<char>.%s' % nm, unit=UNIT, fn=fn, roots=[root], cut_qual=CUT_QUAL + ['Qentem::Value<char>::IsUndefined'], specs=sp, replace=LEAVES + others, ghosts=GHOSTS, prune_specs=True,
                         call_rename=rename, uncut_qual=UNCUT, solver='cadical', timeout=900, objbits=10, split=(12 if fn in (FN_SA, FN_SO) else 0), cbmc_flags=['--slice-formula'], must_have=['postcondition'], clause=clause,
                         cex_K=3, cex_unwind=6, cex_recursive=[FN_SV, FN_SA, FN_SO, FN_PUB],
                         pre='static unsigned char *qx_kinds; static unsigned char *qx_klen;\n',
                         cex_skip=(None if fn != FN_PUB else 'its inputs are linked containers with owned storage, which the generated harness cannot build')))
-    return out
+    return out + comma_jobs()
